@@ -136,9 +136,9 @@ func (c *ClientConn) onResponse(res *http.Response, err error) {
 			if timeout > 0 {
 				if time.Now().After(deadline) {
 					c.closeWithErrorWithoutLock(ErrClientTimeout)
+				} else {
+					_ = c.conn.SetReadDeadline(deadline)
 				}
-			} else {
-				_ = c.conn.SetReadDeadline(deadline)
 			}
 		} else {
 			if c.IdleConnTimeout > 0 {
